@@ -36,6 +36,7 @@ FIXED = {
  "fix: a metadata patch whose body is the JSON value null": ("R2", ["C20"], "PATCH with the body null panicked (nil object)", "harness/internal/robust/gcs.go Directed()"),
  "fix: GetTable, CreateTable and ModifyColumnFamilies return a copy": ("A16b", ["C20"], "schema changes while fetching the schema: the live definition was encoded while ModifyColumnFamilies changed it — fatal 'concurrent map iteration and map write'", "robustmix (concurrent mix child process)"),
  "fix: CreateTable copies the definition for its response before": ("A16c", ["C20"], "CreateTable copied the stored definition for its response after releasing the server lock, while a ModifyColumnFamilies on the new table could already write the family map — concurrent map read and write (data race; fatal when it hits)", "robustmix (concurrent mix child process, -race build): creator/deleter against a modifier of the same table"),
+ "fix: page tokens for object names that are not valid UTF-8": ("B5", ["C20", "C11"], "a listing that has to continue after an object whose name is not valid UTF-8 panicked in EncodePageToken (the token is a protobuf string field); found by reading by a sub-agent, reproduced over HTTP: the connection is dropped", "harness/internal/robust/gcs.go Directed()"),
  "fix: the memory store creates and fetches a bucket": ("B11", ["C20"], "memory store: an upload or copy racing a bucket deletion dereferenced a nil bucket", "robustmix (concurrent mix child process)"),
  "fix: an upload whose bucket is deleted": ("R3", ["C20"], "an upload whose bucket was deleted before the response was built dereferenced nil metadata", "robustmix (concurrent mix child process)"),
  "fix: compose without a destination": ("B3", ["C15", "C20"], "compose without a destination resource panicked (nil dereference)", "corpus/gcs/B3-compose-without-destination.json"),
